@@ -454,8 +454,8 @@ def jobs(tier):
     quick = tier == "quick"
     J = []
     A = lambda mk, **kw: J.append(Job("A", mk, max_states=kw.pop("max_states", 2000 if quick else 200000), **kw))
-    B = lambda mk, **kw: J.append(Job("B", mk, cycles=kw.pop("cycles", 1500 if quick else 40000),
-                                      runs=kw.pop("runs", 1 if quick else 3), **kw))
+    B = lambda mk, **kw: J.append(Job("B", mk, cycles=kw.pop("cycles", 1500 if quick else 12000),
+                                      runs=kw.pop("runs", 1 if quick else 2), **kw))
     # add_auto_tx_flush: timeout 3 cycles / interval 2 and 4 (mode A: PHY and software letters, one data value per side)
     # (the UART netlists cost ~4 ms per simulated cycle: small caps in the quick tier)
     fl_alpha = prod((0, 1), (1,), (0,), (0, 1), (0, 1), (3,), (0, 1))
@@ -465,7 +465,7 @@ def jobs(tier):
     if not quick:
         A(lambda: mk_uart_flush(2, 2, cycles=3, interval=2, alphabet=prod((0, 1), (1, 2), (0,), (0,), (0,), (3,), (0, 1))),
           max_states=20000)
-    B(lambda: mk_uart_flush(3, 2, cycles=6, interval=4, rx_we=True), cycles=450 if quick else 40000)
+    B(lambda: mk_uart_flush(3, 2, cycles=6, interval=4, rx_we=True), cycles=450 if quick else 12000)
     if not quick:
         A(lambda: mk_uart_flush(2, 2, cycles=4, interval=4, alphabet=fl_alpha), max_states=20000)
         B(lambda: mk_uart_flush(4, 4, cycles=25, interval=8))
@@ -497,8 +497,8 @@ def jobs(tier):
         B(lambda: mk_phymodel(), cycles=5000)
     # UARTCrossover
     xo_alpha = prod((0, 1), (1,), (0,), (0, 1), (0, 1), (2,), (0, 1), (0,))
-    A(lambda: CrossoverInst(2, 2, alphabet=xo_alpha), max_states=8 if quick else 30000)
-    B(lambda: CrossoverInst(4, 4, rx_we=True), cycles=250 if quick else 40000)
+    A(lambda: CrossoverInst(2, 2, alphabet=xo_alpha), max_states=8 if quick else 400)
+    B(lambda: CrossoverInst(4, 4, rx_we=True), cycles=250 if quick else 8000)
     return J
 
 
